@@ -1739,8 +1739,9 @@ add_error:
                 case NODE_NUMBER:
                     if ($3->kind == NODE_NUMBER) {
                         if ($3->v.number == 0) {
-                            yyerror("Divide by zero in constant");
-                            $$ = $1;
+                            /* not an error of the program unless it is executed: 0 && (1 / 0) is 0 */
+                            yywarn("Divide by zero in constant");
+                            CREATE_BINARY_OP($$, F_DIVIDE, result_type, $1, $3);
                             break;
                         }
                         $$ = $1;
@@ -1752,8 +1753,9 @@ add_error:
                     }
                     if ($3->kind == NODE_REAL) {
                         if ($3->v.real == 0.0) {
-                            yyerror("Divide by zero in constant");
-                            $$ = $1;
+                            /* not an error of the program unless it is executed: 0 && (1 / 0) is 0 */
+                            yywarn("Divide by zero in constant");
+                            CREATE_BINARY_OP($$, F_DIVIDE, result_type, $1, $3);
                             break;
                         }
                         $$ = $3;
@@ -1765,8 +1767,9 @@ add_error:
                 case NODE_REAL:
                     if ($3->kind == NODE_NUMBER) {
                         if ($3->v.number == 0) {
-                            yyerror("Divide by zero in constant");
-                            $$ = $1;
+                            /* not an error of the program unless it is executed: 0 && (1 / 0) is 0 */
+                            yywarn("Divide by zero in constant");
+                            CREATE_BINARY_OP($$, F_DIVIDE, result_type, $1, $3);
                             break;
                         }
                         $$ = $1;
@@ -1775,8 +1778,9 @@ add_error:
                     }
                     if ($3->kind == NODE_REAL) {
                         if ($3->v.real == 0.0) {
-                            yyerror("Divide by zero in constant");
-                            $$ = $1;
+                            /* not an error of the program unless it is executed: 0 && (1 / 0) is 0 */
+                            yywarn("Divide by zero in constant");
+                            CREATE_BINARY_OP($$, F_DIVIDE, result_type, $1, $3);
                             break;
                         }
                         $$ = $1;
